@@ -139,7 +139,7 @@ NORM = {
                                        "UTM_campaign", "_ga=1.2", "gclid="]],
     "amp_items": [cp(x) for x in ["amp", "amp_js_v=0.1", "outputType=amp", "mode=amp"]],
     "lang_items": [cp(x) for x in ["gl=fr", "hl=en", "GL=US"]],
-    "index_pages": [cp(x) for x in ["index.html", "index.php", "index", "default.aspx", "index.xhtml"]],
+    "index_pages": [cp(x) for x in ["index.html", "index.php", "index", "default.aspx", "index.xhtml", "index%2Ehtml", "%69ndex.php", "default%2easpx"]],
     "countries": None,
 }
 
@@ -231,7 +231,7 @@ def _c15():
         v = quote(t, safe="")
         out += ["http://a.com/redirect?q=" + v, "https://www.google.com/url?q=" + v + "&sa=D", "https://www.youtube.com/redirect?q=" + v + "&v=1",
                 "https://www.youtube.com/redirect?event=x&redir_token=y&q=" + v, "http://a.com/p?q=" + v, "http://a.com/p#u=" + v, "http://a.com/p/&u=" + v,
-                "http://u=" + v + "@a.com/", "http://a.com&u=" + v, "http://a&u=" + v, "a.com?u=" + v, "?u=" + v, "u=" + v, "&url=" + v]
+                "http://u=" + v + "@a.com/", "http://a.com&u=" + v, "http://a&u=" + v, "//a&u=" + v, "//a.com&url=" + v, "//a.com/p?url=" + v, "a.com?u=" + v, "?u=" + v, "u=" + v, "&url=" + v]
     # nesting 1-4 levels with matching levels of encoding
     def nest(n, inner="http://z.com/end"):
         t = inner
@@ -273,7 +273,7 @@ C16 = {
     "paths": [{"t": cp(t), "s": sp} for t, sp in [("", False), ("/", False), ("/a/b?q=1#f", False), ("/a b", True), ("?q=a b", True), ("#é", False), ("/a\tb", True)]],
     "pads": [cp(""), cp(" "), cp("\t\n")],
     "elements": [cp(x) for x in ["hello", "voir", "(", ")", ",", ".", "…", "«", "»", " ", "\n", "[", "](", "!", "http://lemonde.fr/a", "https://www.example.com/path?q=1)",
-                                  "lemonde.fr", "www.example.com/x", "http://a.com/](", "foo", "[http://a.com](http://b.com)", "HTTP://C.COM.", "ftp://d.org/x,"]],
+                                  "lemonde.fr", "www.example.com/x", "http://a.com/](", "foo", "[http://a.com](http://b.com)", "HTTP://C.COM.", "ftp://d.org/x,", "[http://x](y@a.com)", "@a.com"]],
 }
 
 
@@ -301,6 +301,8 @@ C17 = {
         _el('<a href="http://www.lemonde.fr&#x2F;article.html">entity</a>', "http://www.lemonde.fr&#x2F;article.html"),
         _el('<script type="text/javascript">var s = \'<a href="http://in.script.com/x">no</a>\';</script>'),
         _el('<script>document.write("<a href=/also-in-script>x</a>")</script>'),
+        _el('<SCRIPT>var t = "<a href=/in-upper-script>x</a>";</SCRIPT>'),
+        _el('<Script type="module">html`<a href="http://in.mixed-case.script.com/">y</a>`</Script>'),
         _el("du texte avec des accents éàü et une espace\u00a0insécable, 1 < 2."),
         _el('<a\u00a0href="/nbsp-is-not-a-space">nbsp</a>'),
         _el('<a name="noattr">no href</a><b>bold</b>'),
